@@ -320,10 +320,12 @@ func c10run(c *fw.Ctx, idx int) {
 		return &prog.Program{Main: main, Vars: map[string]prog.Value{}, Globals: map[string]prog.Value{"sitetitle": prog.Str("Site"), "sitelang": prog.Str("en")}, Data: prog.Str("a-context"), HasData: true, Files: []*prog.File{
 			{Path: "/dumps.jet", Body: []prog.Node{&prog.RawFail{Src: `{{ sitetitle := "local" }}{{ if true }}{{ sitelang := "xx" }}{{ d := dump() }}{{ len(d) > 0 }}{{ d2 := dump(2) }}{{ len(d2) > 0 }}{{ end }}:{{ sitetitle }}`}}},
 			{Path: "/globals.jet", Body: []prog.Node{&prog.RawFail{Src: `[{{ sitetitle }}|{{ sitelang }}|{{ isset(sitetitle) }}]`}}},
+			{Path: "/assignglobal.jet", Body: []prog.Node{&prog.RawFail{Src: `{{ try }}{{ sitetitle = "overridden" }}A{{ catch }}E{{ end }}|{{ try }}{{ range sitelang = xs }}{{ end }}B{{ catch }}E{{ end }}|{{ sitetitle }}`}}},
 		}}
 	}
 	dumpFirst := &c10unit{name: "dump-beside-variables-named-like-globals", p: dumpp("/dumps.jet")}
-	units = append(units, dumpFirst, &c10unit{name: "globals-rendered", p: dumpp("/globals.jet"), share: dumpFirst})
+	units = append(units, dumpFirst, &c10unit{name: "globals-rendered", p: dumpp("/globals.jet"), share: dumpFirst},
+		&c10unit{name: "assignment-to-a-name-that-is-only-a-global", p: dumpp("/assignglobal.jet"), share: dumpFirst})
 	// two struct types of the same name with their fields in another order, rendered by one template: what an execution
 	// learnt about the first is not applied to the second (the field index cache is process-wide, so the expected
 	// rendering is spelt out instead of taken from a reference execution)
